@@ -30,6 +30,7 @@ def run(ctx: Ctx) -> None:
     hooks.rule_pair_noise_applied(ctx)
     effects.rule_shared_op_store(ctx)
     effects.rule_stale_swap_read(ctx)
+    effects.rule_weight_preserve(ctx)
     tm = repo.module(gatesum.TRANSFORM)
     handled = tables.handled_tags_chain(repo, tm, repo.anchor(gatesum.TRANSFORM, "run_circuit"))
     tables.rule_vocab(ctx, "vocab.gates", [(NM, "PauliError.apply")], "run_circuit", handled)
@@ -39,6 +40,8 @@ def run(ctx: Ctx) -> None:
 
 
 KNOCKOUTS = [
+    Knockout("weight-renormalise-channel", "graphiq/backends/density_matrix/state.py", sub_once("            self._data = dmf.hermitianize(tmp_state)", "            self._data = dmf.hermitianize(tmp_state)\n            self._data = self._data / np.trace(self._data)"), "weight.preserve", "apply_channel"),
+    Knockout("weight-mixed-prob", "graphiq/backends/stabilizer/state.py", sub_once("            (p_i, transform.hadamard_gate(t_i, qubit_position))\n            for (p_i, t_i) in self._mixture", "            (1.0, transform.hadamard_gate(t_i, qubit_position))\n            for (p_i, t_i) in self._mixture"), "weight.preserve", "apply_hadamard"),
     Knockout("stale-swap-read", CBASE, sub_once("                            tmp_noise = [noise_copy[0], nm.NoNoise]", "                            tmp_noise = [op.noise[0], nm.NoNoise]"), "effect.stale-swap-read", "swap of op.noise", on_fixed_only=True),
     Knockout("pair-noise-early-return", hooks.DM, sub_once("            control_noise.apply(\n                state, n_quantum, [q_index(op.control, op.control_type)]\n            )\n            target_noise.apply", "            control_noise.apply(\n                state, n_quantum, [q_index(op.control, op.control_type)]\n            )\n            if isinstance(target_noise, nm.NoNoise):\n                return\n            control_noise.apply"), "noise.both-applied", "pair noise"),
     Knockout("A3-photonloss-mixed", NM,
